@@ -104,9 +104,8 @@ structure FilterSpec (t r : Table α) (ax : Axis) (keepId : Id → Bool) : Prop 
   ids : r.ids ax = (t.ids ax).filter keepId
   /-- each with its original vector -/
   vec : ∀ id ∈ r.ids ax, r.vec? ax id = t.vec? ax id
-  /-- and its original metadata -/
-  md : ∀ id ∈ r.ids ax, r.mdOf? ax id = t.mdOf? ax id
-  mdPresent : (r.md ax).isSome = (t.md ax).isSome
+  /-- and its original metadata (canonically: metadata whose kept entries are all empty is stored as none) -/
+  md : ∀ id ∈ r.ids ax, mdCanon (r.mdOf? ax id) = mdCanon (t.mdOf? ax id)
   /-- the other axis is untouched -/
   otherIds : r.ids ax.other = t.ids ax.other
   otherMd : r.md ax.other = t.md ax.other
@@ -124,7 +123,6 @@ theorem filterAxis_meets_spec (t : Table α) (hwf : t.WF) (ax : Axis) (hn : (t.i
     intro id hid
     rw [filterAxis_ids] at hid
     exact filterAxis_mdOf? t _ ax hn id hid
-  mdPresent := by rw [filterAxis_md]; cases t.md ax <;> rfl
   otherIds := filterAxis_other_ids t _ ax
   otherMd := filterAxis_other_md t _ ax
   ttype := filterAxis_ttype t _ ax
@@ -243,11 +241,11 @@ theorem resultClauses_of_spec [DecidableEq α] (t r : Table α) (ax : Axis) (f :
       intro id hid
       exact eqb_of_eq _ _ (h.vec id (h.ids ▸ hid))
     rw [this]; rfl
-  · have : ((t.ids ax).filter f).all (fun id => eqb (r.mdOf? ax id) (t.mdOf? ax id)) = true := by
+  · have : ((t.ids ax).filter f).all (fun id => eqb (mdCanon (r.mdOf? ax id)) (mdCanon (t.mdOf? ax id))) = true := by
       rw [List.all_eq_true]
       intro id hid
       exact eqb_of_eq _ _ (h.md id (h.ids ▸ hid))
-    rw [this, eqb_of_eq _ _ h.mdPresent]; rfl
+    rw [this]; rfl
   · rw [eqb_of_eq _ _ h.otherMd]; rfl
   · rw [eqb_of_eq _ _ h.ttype]; rfl
 
@@ -368,10 +366,8 @@ structure BlockSpec (t r : Table α) (eo es : List Id) : Prop where
   obs : r.obs = eo
   samp : r.samp = es
   cells : ∀ o ∈ eo, ∀ s ∈ es, r.cell? o s = t.cell? o s
-  omdPresent : r.omd.isSome = t.omd.isSome
-  smdPresent : r.smd.isSome = t.smd.isSome
-  omd : ∀ o ∈ eo, r.mdOf? .obs o = t.mdOf? .obs o
-  smd : ∀ s ∈ es, r.mdOf? .samp s = t.mdOf? .samp s
+  omd : ∀ o ∈ eo, mdCanon (r.mdOf? .obs o) = mdCanon (t.mdOf? .obs o)
+  smd : ∀ s ∈ es, mdCanon (r.mdOf? .samp s) = mdCanon (t.mdOf? .samp s)
   ttype : r.ttype = t.ttype
 
 theorem blockSpec_filterAxis (t : Table α) (hwf : t.WF) (ax : Axis) (hn : (t.ids ax).Nodup) (f : Id → Bool) :
@@ -385,7 +381,6 @@ theorem blockSpec_filterAxis (t : Table α) (hwf : t.WF) (ax : Axis) (hn : (t.id
       wf := hs.wf, obs := hs.ids, samp := rfl
       cells := fun o ho s _ => filterAxis_cell? t _ .obs hn o s (by
         show o ∈ filterMask t.obs (t.obs.map f); rw [filterMask_map_self]; exact ho)
-      omdPresent := hs.mdPresent, smdPresent := rfl
       omd := fun o ho => hs.md o (by rw [hs.ids]; exact ho)
       smd := fun _ _ => rfl
       ttype := hs.ttype }
@@ -394,7 +389,6 @@ theorem blockSpec_filterAxis (t : Table α) (hwf : t.WF) (ax : Axis) (hn : (t.id
       wf := hs.wf, obs := rfl, samp := hs.ids
       cells := fun o _ s hs' => filterAxis_cell? t _ .samp hn o s (by
         show s ∈ filterMask t.samp (t.samp.map f); rw [filterMask_map_self]; exact hs')
-      omdPresent := rfl, smdPresent := hs.mdPresent
       omd := fun _ _ => rfl
       smd := fun s hs' => hs.md s (by rw [hs.ids]; exact hs')
       ttype := hs.ttype }
@@ -405,8 +399,6 @@ theorem blockSpec_trans (t t1 r : Table α) (eo es es' : List Id) (h1 : BlockSpe
   obs := h2.obs
   samp := h2.samp
   cells := fun o ho s hs => (h2.cells o ho s hs).trans (h1.cells o ho s (hsub s hs))
-  omdPresent := h2.omdPresent.trans h1.omdPresent
-  smdPresent := h2.smdPresent.trans h1.smdPresent
   omd := fun o ho => (h2.omd o ho).trans (h1.omd o ho)
   smd := fun s hs => (h2.smd s hs).trans (h1.smd s (hsub s hs))
   ttype := h2.ttype.trans h1.ttype
@@ -472,8 +464,8 @@ theorem blockVerdict_none [DecidableEq α] (t r : Table α) (eo es : List Id) (h
       chk c2 (eqb r.obs eo),
       chk c3 (eqb r.samp es),
       chk c4 (eo.all (fun o => es.all (fun s => eqb (r.cell? o s) (t.cell? o s)))),
-      chk c5 (((eqb r.omd.isSome t.omd.isSome) && eo.all (fun o => eqb (r.mdOf? .obs o) (t.mdOf? .obs o))) &&
-              ((eqb r.smd.isSome t.smd.isSome) && es.all (fun s => eqb (r.mdOf? .samp s) (t.mdOf? .samp s)))),
+      chk c5 (eo.all (fun o => eqb (mdCanon (r.mdOf? .obs o)) (mdCanon (t.mdOf? .obs o))) &&
+              es.all (fun s => eqb (mdCanon (r.mdOf? .samp s)) (mdCanon (t.mdOf? .samp s)))),
       chk c6 (eqb r.ttype t.ttype),
       chk c7 b7] = none := by
   apply allV_nil_of_all_none
@@ -490,11 +482,11 @@ theorem blockVerdict_none [DecidableEq α] (t r : Table α) (eo es : List Id) (h
       rw [List.all_eq_true]; intro s hs
       exact eqb_of_eq _ _ (h.cells o ho s hs)
     rw [this]; rfl
-  · have h1 : eo.all (fun o => eqb (r.mdOf? .obs o) (t.mdOf? .obs o)) = true := by
+  · have h1 : eo.all (fun o => eqb (mdCanon (r.mdOf? .obs o)) (mdCanon (t.mdOf? .obs o))) = true := by
       rw [List.all_eq_true]; intro o ho; exact eqb_of_eq _ _ (h.omd o ho)
-    have h2 : es.all (fun s => eqb (r.mdOf? .samp s) (t.mdOf? .samp s)) = true := by
+    have h2 : es.all (fun s => eqb (mdCanon (r.mdOf? .samp s)) (mdCanon (t.mdOf? .samp s))) = true := by
       rw [List.all_eq_true]; intro s hs; exact eqb_of_eq _ _ (h.smd s hs)
-    rw [h1, h2, eqb_of_eq _ _ h.omdPresent, eqb_of_eq _ _ h.smdPresent]; rfl
+    rw [h1, h2]; rfl
   · rw [eqb_of_eq _ _ h.ttype]; rfl
 
 /-- **model_holds** (`remove_empty` along one axis) -/
@@ -516,7 +508,7 @@ theorem model_holds_removeEmpty [Zero α] [DecidableEq α] (t : Table α) (hwf :
 
 /-- `t` restricted to its leading `k` observations -/
 def obsBlock (t : Table α) (k : Nat) : Table α :=
-  { t with obs := t.obs.take k, rows := t.rows.take k, omd := t.omd.map (·.take k) }
+  { t with obs := t.obs.take k, rows := t.rows.take k, omd := normMd (t.omd.map (·.take k)) }
 
 theorem takeMask_of_ids (ids : List Id) (hn : ids.Nodup) (k : Nat) :
     ids.map (fun id => (ids.take k).contains id ^^ false) = takeMask k ids.length := by
@@ -536,7 +528,7 @@ theorem filterAxis_takeMask_obs (t : Table α) (hwf : t.WF) (k : Nat) :
 
 theorem filterAxis_takeMask_samp (t : Table α) (hwf : t.WF) (k : Nat) :
     filterAxis t (takeMask k t.samp.length) .samp =
-      { t with samp := t.samp.take k, rows := t.rows.map (·.take k), smd := t.smd.map (·.take k) } := by
+      { t with samp := t.samp.take k, rows := t.rows.map (·.take k), smd := normMd (t.smd.map (·.take k)) } := by
   obtain ⟨_, h2, _, h4⟩ := hwf
   simp only [filterAxis, filterMask_takeMask]
   congr 1
@@ -576,7 +568,8 @@ theorem head_block [Zero α] (t : Table α) (hwf : t.WF) (hno : t.obs.Nodup) (hn
     head t lo ls n m = .ok
       { obs := t.obs.take n.toNat, samp := t.samp.take m.toNat,
         rows := (t.rows.take n.toNat).map (·.take m.toNat),
-        omd := t.omd.map (·.take n.toNat), smd := t.smd.map (·.take m.toNat), ttype := t.ttype } := by
+        omd := normMd (t.omd.map (·.take n.toNat)), smd := normMd (t.smd.map (·.take m.toNat)),
+        ttype := t.ttype } := by
   rw [head_eq t hwf hno hns lo ls n m hn hm hlo hls]
   have := filterAxis_takeMask_samp (obsBlock t n.toNat) (obsBlock_wf t hwf n.toNat) m.toNat
   rw [show (obsBlock t n.toNat).samp = t.samp from rfl] at this
